@@ -101,6 +101,10 @@ class Renderer:
         if form == "star":
             imports.add(f"from {full} import *")
             return name
+        if form == "ext_facade":
+            # the accepted function is reached through a NON-accepted module of another top-level package that re-exports it
+            imports.add(f"from {self.xpkg} import util as m_facade")
+            return f"m_facade.{name}"
         if form == "reexport":
             imports.add(f"from {base}.reexp import {name}")
             return name
@@ -282,7 +286,8 @@ class Renderer:
         for f in ext.get("funcs", []):
             body.append("")
             body += self.func(dict(f, module="util"), imports)
-        return "import pipelog\nimport pipehelp\nimport dds\n" + "\n".join(body) + "\n"
+        reexp = "".join(f"from {self.pkg}.{home} import {name}\n" for home, name in ext.get("reexports", []))
+        return "import pipelog\nimport pipehelp\nimport dds\n" + reexp + "\n".join(body) + "\n"
 
     def files(self):
         out = {}
